@@ -74,15 +74,37 @@ Definition parse_flags (h : string) : bool * option (nat * string) :=
   | [] => (false, None)
   end.
 
+(* "<tree> @@ <hex text> <tree> @@ …": the program followed by the pre-parsed eval() texts *)
+Fixpoint split_at (sep : string) (ws : list string) (cur : list string) : list (list string) :=
+  match ws with
+  | [] => [rev cur]
+  | w :: r => if String.eqb w sep then rev cur :: split_at sep r [] else split_at sep r (w :: cur)
+  end.
+
+Definition read_evals (segs : list (list string)) : list (string * ast) :=
+  fold_right (fun seg acc =>
+                match seg with
+                | h :: rest => match string_of_hex h, read_ast (join " " rest) with
+                               | Some text, Some t => (text, t) :: acc
+                               | _, _ => acc
+                               end
+                | [] => acc
+                end) [] segs.
+
 Definition run_with (ops : numops) (line : string) : string :=
   match words line with
   | h :: f :: rest =>
-      match z_of_dec f, read_ast (join " " rest) with
-      | Some fz, Some a =>
-          let '(hints, fault) := parse_flags h in
-          let '(r, s) := run_program (mkcfg hints) ops (Z.to_nat fz) a (set_cb init_state (0%nat, fault)) in
-          show_result r s ++ " || " ++ show_shape s
-      | _, _ => "UNREADABLE"
+      match split_at "@@" rest [] with
+      | main :: evs =>
+          match z_of_dec f, read_ast (join " " main) with
+          | Some fz, Some a =>
+              let '(hints, fault) := parse_flags h in
+              let s0 := set_evals (set_cb init_state (0%nat, fault)) (read_evals evs, 0%nat) in
+              let '(r, s) := run_program (mkcfg hints) ops (Z.to_nat fz) a s0 in
+              show_result r s ++ " || " ++ show_shape s
+          | _, _ => "UNREADABLE"
+          end
+      | [] => "BADCASE"
       end
   | _ => "BADCASE"
   end.
